@@ -40,6 +40,7 @@ func vh_C16_getters() {
 	verifAssert("C16.proto", GetRequestProto(r1) == GetRequestProto(r2))
 	verifAssert("C16.host", GetRequestHost(r1) == GetRequestHost(r2))
 	verifAssert("C16.uri", GetRequestURI(r1) == GetRequestURI(r2))
+	verifAssert("C16.path", GetRequestPath(r1) == GetRequestPath(r2))
 	verifAssert("C16.proto-own", GetRequestProto(r1) == scheme)
 	verifAssert("C16.host-own", GetRequestHost(r1) == host)
 	verifAssert("C16.forwarded", !IsForwardedRequest(r1) && !IsForwardedRequest(r2))
